@@ -46,6 +46,18 @@ def gen_kernel(rng, tier):
         st = rng.randint(0, 60)
         en = rng.choice([MAX, st, st + rng.randint(0, 30)])
         yield {"pop": rng.choice([0, 0, 0, 2]), "chrom": c, "st": st, "en": en, "cm": rng.randint(0, 500), "segs": segs}
+    # old, heavily recombined parents: dozens of tracts per chromosome, intervals spanning more than 32 of them
+    for _ in range(60 if tier == "quick" else 3000):
+        segs = []
+        chroms = sorted(rng.sample([1, 2, 5, 23], rng.randint(1, 3)))
+        for c in chroms:
+            ends = sorted(rng.sample(range(1, 2000), rng.choice([10, 11, 12, 30, 33, 40, 70]))) + [MAX]
+            for i, e in enumerate(ends):
+                segs.append([rng.randint(1, 5), c, e, 3 * i])
+        c = rng.choice(chroms)
+        st = rng.choice([0, 0, rng.randint(0, 2000)])
+        en = rng.choice([MAX, MAX, st + rng.randint(0, 2000)])
+        yield {"pop": 0, "chrom": c, "st": st, "en": en, "cm": rng.randint(0, 500), "segs": segs}
 
 
 def impl_kernel(case):
@@ -330,7 +342,7 @@ CHECK = Check(
             describe=describe_kernel,
             variants=variants_kernel,
             nontrivial=lambda c, o: C.jdump(c) if any(c["st"] <= s[2] < c["en"] and s[1] == c["chrom"] for s in c["segs"]) else None,
-            rule="exhaustive: all parents over <=2 chromosomes with tract ends from {2,4,6}+MAX (<=2 inner ends quick, <=3 thorough), labels {1,2}, all (st,en) with st in 0..7, en in st..7 or MAX; plus seeded random parents with up to 7 tracts on up to 3 chromosomes (incl. 23) and source-population calls; non-trivial = the interval spans at least one parental breakpoint",
+            rule="exhaustive: all parents over <=2 chromosomes with tract ends from {2,4,6}+MAX (<=2 inner ends quick, <=3 thorough), labels {1,2}, all (st,en) with st in 0..7, en in st..7 or MAX; plus seeded random parents with up to 7 tracts on up to 3 chromosomes (incl. 23) and source-population calls, and parents with 10-70 tracts per chromosome whose copied interval spans dozens of them; non-trivial = the interval spans at least one parental breakpoint",
         ),
         Section(
             name="simulate_gt",
